@@ -4,6 +4,11 @@
 use libfuzzer_sys::fuzz_target;
 
 fuzz_target!(|data: &[u8]| {
+    // libfuzzer-sys installs a panic hook that aborts the process; the oracle catches the panics the
+    // properties require (e.g. expand_message_xmd beyond 255 blocks) and reports unexpected ones itself,
+    // so the harness hook (record message, keep unwinding) replaces it.
+    static HOOK: std::sync::Once = std::sync::Once::new();
+    HOOK.call_once(verif_pbt::engine::install_panic_hook);
     if let Err(m) = verif_pbt::fuzz_entry::run("field", data) {
         eprintln!("FUZZ-VIOLATION target=field {}", m);
         std::process::abort();
